@@ -516,6 +516,62 @@ fn verif_c06_negotiated() {
     rec.finish();
 }
 
+/// The production entry point of a hybrid query (`query::runner::execute_hybrid_protocol`, what `do_query` calls): it
+/// builds the sharded context itself from the shard's own PRSS endpoint and the gateway, sets up the cross-shard
+/// randomness, decrypts the input and runs the protocol. Every (helper, shard) gets an independently negotiated
+/// endpoint, as in deployment. Returns one line per (helper, shard): "ok" / error text.
+async fn production_runner_world<const S: usize>(seed: u64) -> Vec<String> {
+    use std::iter::zip;
+
+    use rand::{SeedableRng, rngs::StdRng};
+
+    use crate::{
+        ff::FieldType,
+        helpers::{BodyStream, query::{HybridQueryParams, QueryConfig, QueryType}},
+        hpke::{KeyPair, KeyRegistry},
+        query::verif_execute_hybrid_protocol,
+        report::hybrid::{DEFAULT_KEY_ID, HybridReport},
+        secret_sharing::IntoShares,
+        sharding::ShardIndex,
+        test_fixture::hybrid::build_hybrid_records_and_expectation,
+    };
+    let (records, _expected) = build_hybrid_records_and_expectation();
+    let mut rng = StdRng::seed_from_u64(seed);
+    let key_registry = Arc::new(KeyRegistry::<KeyPair>::random(1, &mut rng));
+    let mut buffers: [Vec<Vec<u8>>; 3] = std::array::from_fn(|_| vec![Vec::new(); S]);
+    let shares: [Vec<HybridReport<BA8, BA3>>; 3] = records.iter().cloned().share_with(&mut rng);
+    for (buf, shares) in zip(&mut buffers, shares) {
+        for (i, share) in shares.into_iter().enumerate() {
+            share.delimited_encrypt_to(DEFAULT_KEY_ID, key_registry.as_ref(), &mut rng, &mut buf[i % S]).unwrap();
+        }
+    }
+    let sizes: Vec<usize> = (0..S).map(|s| records.len() / S + usize::from(s < records.len() % S)).collect();
+    let mut cfg = TestWorldConfig::default();
+    cfg.seed = seed;
+    cfg.timeout = None;
+    let world = TestWorld::<WithShards<S>>::with_shards(&cfg);
+    let endpoints: Vec<[Endpoint; 3]> = (0..S).map(|_| make_participants(&mut rng)).collect();
+    let mut futs = Vec::new();
+    for (h, role) in Role::all().iter().enumerate() {
+        for s in 0..S {
+            let params = HybridQueryParams { with_dp: 0, ..Default::default() };
+            let query_config = QueryConfig::new(QueryType::MaliciousHybrid(params), FieldType::Fp32BitPrime, sizes[s]).unwrap();
+            let prss = &endpoints[s][h];
+            let gateway = world.gateway(*role, ShardIndex::from(u32::try_from(s).unwrap()));
+            let input = BodyStream::from(std::mem::take(&mut buffers[h][s]));
+            let key_registry = Arc::clone(&key_registry);
+            futs.push(Box::pin(async move {
+                match catch_fut(verif_execute_hybrid_protocol(prss, gateway, input, params, &query_config, key_registry)).await {
+                    Ok(Ok(_)) => "ok".to_string(),
+                    Ok(Err(e)) => format!("err: {e:?}").chars().take(160).collect(),
+                    Err(p) => format!("panic: {p}").chars().take(160).collect(),
+                }
+            }));
+        }
+    }
+    join_all(futs).await
+}
+
 /// (2) the log-based monitor over protocol executions selected for their PRSS index arithmetic
 #[test]
 fn verif_c06_no_reuse_in_protocols() {
@@ -528,11 +584,33 @@ fn verif_c06_no_reuse_in_protocols() {
             continue;
         }
         let mut r = VRng::new(env.seed ^ 0xc06b, case as u64);
-        let kind = case % 4;
+        let kind = if case % 10 == 9 { 4 } else { case % 4 };
         pm::begin();
         let label;
         let mut panics: Vec<String> = Vec::new();
-        if kind < 2 {
+        if kind == 4 {
+            // the production query entry point on 2 (thorough: also 3) shards with independently negotiated per-shard endpoints
+            let shards = if env.thorough && case % 20 == 19 { 3 } else { 2 };
+            label = format!("hybrid/S{shards}/production_runner");
+            let seed = env.seed.wrapping_mul(13) + case as u64;
+            let out = vlib::run_paused(Duration::from_secs(300), async move {
+                if shards == 3 { production_runner_world::<3>(seed).await } else { production_runner_world::<2>(seed).await }
+            });
+            match out {
+                Paused::Quiescent => rec.violation("a hybrid query through the production entry point did not complete", json!({"kind": "production_runner_no_completion"}), json!({"case": case, "shards": shards})),
+                Paused::Done(res) => {
+                    if res.iter().all(|r| r == "ok") {
+                        rec.count("production_runner_queries_completed");
+                    } else {
+                        rec.violation("a hybrid query through the production entry point failed on an honest run", json!({"kind": "production_runner_failed"}),
+                                      json!({"case": case, "shards": shards, "results": res}));
+                    }
+                    for p in res.iter().filter(|r| r.starts_with("panic")) {
+                        panics.push(p.clone());
+                    }
+                }
+            }
+        } else if kind < 2 {
             // complete hybrid runs at several sizes: exercises DZKP batches (PRSS_RECORDS_PER_BATCH ranges), MAC
             // validator batches (3*offset+{0,1,2}), aggregation chunk carry-over, padding, shuffles
             let shards = if kind == 0 { 1 } else { 2 };
@@ -584,6 +662,21 @@ fn verif_c06_no_reuse_in_protocols() {
         }
         rec.eval();
         let stats = pm::end(&mut rec, &label, json!({"case": case}));
+        // A helper's shards negotiate their own PRSS; only the explicitly cross-shard randomness is replicated. In a run
+        // on two or more shards most (step, index) keys must therefore show per-shard values. If every key that several
+        // shards drew is replicated, the protocol ran on cross-shard randomness throughout: the same value masks different
+        // data on different shards.
+        if (label.starts_with("hybrid/S") && !label.starts_with("hybrid/S1")) || (label.starts_with("shuffle/S") && !label.starts_with("shuffle/S1")) {
+            rec.add("multi_shard_keys_with_per_shard_values", stats.keys_with_per_shard_values as u64);
+            rec.add("multi_shard_keys_replicated", stats.keys_replicated_over_shards as u64);
+            if stats.keys_with_per_shard_values == 0 && stats.keys_replicated_over_shards >= 20 {
+                rec.violation(
+                    "every PRSS value that several shards of a helper drew for one (step, index) is identical on all of them: no per-shard randomness was used",
+                    json!({"kind": "no_per_shard_randomness", "workload": label.split('/').next().unwrap_or("")}),
+                    json!({"case": case, "workload": label, "keys_replicated_over_shards": stats.keys_replicated_over_shards}),
+                );
+            }
+        }
         for p in &panics {
             if pm::is_reuse_panic(p) {
                 rec.violation(
